@@ -81,8 +81,9 @@ LONE = __import__("re").compile(r"\((\?|%s|\$\d+)\)")
 def param_sql(obj, qc):
     pz = Parameterizer()
     try:
-        # (a negative constant after a minus sign keeps its parentheses around the placeholder: the text may depend on the SIGN of a value, not on its text)
-        return LONE.sub(lambda m: m.group(1), obj.get_sql(qc.SQL_CONTEXT.copy(parameterizer=pz))), list(pz.values)
+        # (a negative constant after a minus sign keeps its parentheses around the placeholder: the text may depend on the SIGN of a value, not on its
+        #  text; the twin markers carry the sign of the actual value, see twin.Mapping.value)
+        return obj.get_sql(qc.SQL_CONTEXT.copy(parameterizer=pz)), list(pz.values)
     except Exception as e:  # noqa
         return "EXC:" + type(e).__name__, []
 
